@@ -283,3 +283,51 @@ def run(prog: Program, ctx: Ctx) -> None:  # noqa: PLR0912,PLR0915
     from sa.importrules import wildcard_table
 
     wildcard_table(prog, ctx, "R10")
+
+    # ------------------------------------------------------------------ R12 what the static side builds for a definition is what run time has
+    # (kinds, labels, parameters of functions, coroutines, properties, static / class methods, overloads - alone and after any other definition:
+    # the dynamic side reads them off the live object, so any state the visitor carries from one definition to the next makes the two disagree)
+    from sa.rules.C02 import _definition_table
+
+    _definition_table(prog, ctx, "R12")
+
+    # ------------------------------------------------------------------ R13 which names of a runtime object become children
+    ctx.rule("R13", "ObjectNode.children keeps every name bound in the object's own namespace - whatever it is bound to (a built-in class, an exception "
+                    "type, a constant, a function, a class) - except interpreter specials, `type` / `object` themselves and the objects being inspected")
+    import inspect as _i2
+    import types as _types
+
+    def _helper13() -> None:
+        pass
+
+    class _Klass13:
+        text_type = str
+        limit = 3
+
+        def method(self) -> None:
+            pass
+
+    mod13 = _types.ModuleType("m13")
+    for k13, v13 in {"text_type": str, "DecodeError": ValueError, "container": dict, "value": 1, "nothing": None, "helper": _helper13, "Klass": _Klass13,
+                     "the_type": type, "the_object": object}.items():
+        setattr(mod13, k13, v13)
+    node_cls = prog.cls(f"{R}.ObjectNode")
+    it.ext_handlers["inspect.getmembers"] = lambda _i, o_, *a_: _i2.getmembers(o_, *a_)
+    it.ext_handlers["inspect.unwrap"] = lambda _i, o_, **_k: _i2.unwrap(o_)
+    it.ext_handlers["builtins.vars"] = lambda _i, o_: dict(vars(o_))
+    it.ext_handlers["builtins.id"] = lambda _i, o_: id(o_)
+    for label13, target13 in (("module", mod13), ("class", _Klass13), ("sub-module (its parent packages are placeholder nodes)", mod13)):
+        try:
+            it.steps = 0
+            par13 = it._construct(node_cls, [None, "pkg"], {}) if label13.startswith("sub-module") else None  # what Inspector.get_module builds for `pkg.m13`
+            node13 = it._construct(node_cls, [target13, label13.split(" ")[0]], {"parent": par13})
+            got13: object = sorted(c_.attrs["name"] for c_ in it.getattr(node13, "children"))
+        except Raised as r:
+            got13 = f"raises {r.exc}"
+        specials = it.getattr(node13, "exclude_specials") if not isinstance(got13, str) else set()
+        want13 = sorted(n_ for n_, v_ in vars(target13).items() if n_ not in specials and v_ is not type and v_ is not object)
+        ctx.ob("R13", f"children|{label13}", got13 == want13, f"children of a {label13} whose namespace binds {sorted(n_ for n_ in vars(target13) if not n_.startswith('__'))}: "
+               f"{got13}; expected {want13}", where(prog.lookup_method(node_cls, "children")[0]))
+    for q13 in ("inspect.getmembers", "inspect.unwrap", "builtins.vars", "builtins.id"):
+        it.ext_handlers.pop(q13, None)
+
